@@ -59,7 +59,7 @@ pub fn strategy() -> BoxedStrategy<Case> {
         prop_oneof![5 => Just(0u8), 4 => Just(1u8), 1 => Just(2u8)],
         any::<bool>(),
         prop_oneof![3 => Just(1u8), 3 => Just(2), 3 => Just(4), 2 => Just(8), 2 => Just(16), 1 => Just(0u8)],
-        prop_oneof![2 => Just(u64::MAX), 2 => Just(1024u64), 2 => Just(4096u64), 1 => Just(65536u64), 1 => Just(100u64)],
+        prop_oneof![8 => Just(u64::MAX), 8 => Just(1024u64), 8 => Just(4096u64), 4 => Just(65536u64), 4 => Just(100u64), 1 => Just(0u64)],
         prop::option::weighted(0.3, run_cfg()),
         prop_oneof![6 => Just(0u8), 1 => Just(1u8), 1 => Just(2u8), 1 => Just(3u8), 1 => Just(4u8), 1 => Just(5u8)],
         0u8..6,
@@ -143,7 +143,7 @@ pub fn judge(c: &Case, rec: &mut Rec) -> Verdict {
             cwd: sb.root.clone(),
             umask: 0o022,
             nofile: None,
-            timeout: std::time::Duration::from_secs(60),
+            timeout: std::time::Duration::from_secs(150),
             out_dir: sb.out.clone(),
             root: sb.rootb(),
             extra_roots: vec![pbytes(&sb.out)],
@@ -163,7 +163,7 @@ pub fn judge(c: &Case, rec: &mut Rec) -> Verdict {
         let mut spec = RunSpec::xcp(vec![b"copy".to_vec()], &sb.root, &sb.out);
         spec.bin = PathBuf::from(PROBE_BIN);
         spec.stdin_data = Some(stdin);
-        spec.timeout = std::time::Duration::from_secs(60);
+        spec.timeout = std::time::Duration::from_secs(150);
         let o = run_plain(&spec);
         (o.stdout, vec![], 0, o.timed_out)
     };
@@ -177,6 +177,12 @@ pub fn judge(c: &Case, rec: &mut Rec) -> Verdict {
         Ok(v) => v,
         Err(e) => return Verdict::Inconclusive(format!("probe output: {e}: {}", String::from_utf8_lossy(&stdout).chars().take(200).collect::<String>())),
     };
+    if let (Some(e), None) = (v.get("error").and_then(|x| x.as_str()), v.get("returned")) {
+        // the library refused the configuration before any copy started (load_driver / Driver::new returned Err)
+        rec.class(format!("configuration-refused|block={}|{}", c.block, if c.parblock { "parblock" } else { "parfile" }));
+        let _ = e;
+        return Verdict::Pass;
+    }
     let ok = v.get("ok").and_then(|x| x.as_bool()).unwrap_or(false);
     let returned = v.get("returned").and_then(|x| x.as_bool()).unwrap_or(false);
     let closed = v.get("closed").and_then(|x| x.as_bool()).unwrap_or(false);
@@ -301,7 +307,7 @@ impl Check for C12 {
         "C12"
     }
     fn rule(&self) -> String {
-        "a library-client probe linked against /repo/libxcp runs driver.copy() on a thread as the documented example does; proptest generates the tree (1-2 source trees of 1-15 entries, links, files up to 140 KB), destination absent/empty/pre-populated with natural obstacles (directory where a file must go, file where a directory or link must go, differing files), driver, workers 1-16, block size 100 B..64 KiB or the library default, generated library options (no_clobber, fsync, no_perms, no_timestamps, backup), optional sparse files with an unaligned data tail, and the updater: a client-supplied recording StatusUpdater (mutex-ordered log), the provided ChannelUpdater drained by the documented receiver loop, or NoopUpdater. A fifth of the cases run under the ptrace supervisor with a generated schedule and optionally a fault (copy_file_range EIO, ftruncate ENOSPC/EIO, mkdir EACCES, short copy_file_range), the updater also writing one marker line per update so that the supervisor's log orders updates against data-copy calls. Oracle: sizes announced sum to the total length of the selected regular files when the copy succeeds (never more); at every prefix sum(Copied) <= sum(Size) and <= total; under the supervisor at every marker sum(Copied) <= bytes returned so far by successful data-copy calls; copy() returns and the stream ends (channel disconnects / no updater clone left); Ok without an Error update => destination complete by the reference model. Non-trivial: >=2 Copied updates from >=2 threads, or an obstacle/fault hit; distinct by case hash.".into()
+        "a library-client probe linked against /repo/libxcp runs driver.copy() on a thread as the documented example does; proptest generates the tree (1-2 source trees of 1-15 entries, links, files up to 140 KB), destination absent/empty/pre-populated with natural obstacles (directory where a file must go, file where a directory or link must go, differing files), driver, workers 1-16, block size 100 B..64 KiB, the library default, or (one case in 33) 0, which the library must either refuse or survive, generated library options (no_clobber, fsync, no_perms, no_timestamps, backup), optional sparse files with an unaligned data tail, and the updater: a client-supplied recording StatusUpdater (mutex-ordered log), the provided ChannelUpdater drained by the documented receiver loop, or NoopUpdater. A fifth of the cases run under the ptrace supervisor with a generated schedule and optionally a fault (copy_file_range EIO, ftruncate ENOSPC/EIO, mkdir EACCES, short copy_file_range), the updater also writing one marker line per update so that the supervisor's log orders updates against data-copy calls. Oracle: sizes announced sum to the total length of the selected regular files when the copy succeeds (never more); at every prefix sum(Copied) <= sum(Size) and <= total; under the supervisor at every marker sum(Copied) <= bytes returned so far by successful data-copy calls; copy() returns and the stream ends (channel disconnects / no updater clone left); Ok without an Error update => destination complete by the reference model. Non-trivial: >=2 Copied updates from >=2 threads, or an obstacle/fault hit; distinct by case hash.".into()
     }
     fn needs(&self) -> Needs {
         Needs { xcp: false, probe: true, fallback: false }
